@@ -148,6 +148,22 @@ def main():
                ["bulk", [[E("#777777"), E("#ffffff")]], 1, False, True]]
     imp_raw = apirec.run_fresh(imp_ops, hashseed="0", observe_env=True, env_extra={"VERIF_IMPORT_UNDER_TMP_STDOUT": "1"})
     traces.append(apirec.to_events(imp_raw, keys, cols))
+    # a process whose report names are taken by directories (the report cannot be written) and whose temporary directory lies
+    # inside the watched area: a call may pass the OS's error on; one that returns gives the plain answer, and no file appears
+    # anywhere - not under another name, not in the temporary directory
+    f_ents = [[E("#777777"), E("#ffffff")], [E("#888888"), E("#000000"), True], [E("bogus"), E("#fff")]]
+    fault_ops = [["tmpdir", "tmp"], ["chdir", "blocked"], ["block", "cm_colors_quick_report.html"], ["block", "cm_colors_bulk_report.html"],
+                 ["new", 1, E("#777777"), E("#ffffff"), False], ["fix", 1, 1, False, False, False], ["fix", 1, 1, False, False, True],
+                 ["fix", 1, 1, False, True, True], ["fix", 1, 1, False, False, False],
+                 ["new", 2, E("#000000"), E("#ffffff"), False], ["fix", 2, 1, False, False, True], ["fix", 2, 1, False, False, False],
+                 ["new", 3, E("rgb(120, 120, 125)"), E("rgb(250, 250, 250)"), True], ["fix", 3, 2, True, False, True], ["fix", 3, 2, True, False, False],
+                 ["new", 4, E("#808080"), E("#828282"), False], ["fix", 4, 0, False, False, True], ["fix", 4, 0, False, False, False],
+                 ["bulk", f_ents, 1, False, False], ["bulk", f_ents, 1, False, True], ["bulk", f_ents, 1, False, False],
+                 ["chdir", "a"], ["fix", 1, 1, False, False, True], ["bulk", f_ents, 1, False, True]]
+    fault_raw = apirec.run_fresh(fault_ops, hashseed="0", observe_env=True)
+    traces.append(apirec.to_events(fault_raw, keys, cols))
+    rep.extra["report_write_fault_history"] = {"calls": len(fault_ops), "raised": sum(1 for e in fault_raw if e.get("fault") and e.get("raised")),
+                                                "returned": sum(1 for e in fault_raw if e.get("fault") and not e.get("raised"))}
     agg = vlib.validate_traces("TrApi", traces, min_per_shard=30)
     rep.add_traces(agg, len(traces))
     rep.evaluations = sum(len(tr) for tr in traces)
@@ -165,7 +181,7 @@ def main():
         mine = [f for f in bad["fails"] if f.startswith("C17_")]
         if mine:
             tid = bad["tid"]
-            src = {"case": jobs[tid][0], "input": repr(res[tid][1])} if tid < len(jobs) else {"case": ("import cm_colors in a fresh interpreter", "long history of report-writing calls in a fresh interpreter with RLIMIT_NOFILE = 96", "library first imported under a temporary stdout that was closed afterwards")[min(2, tid - len(jobs))]}
+            src = {"case": jobs[tid][0], "input": repr(res[tid][1])} if tid < len(jobs) else {"case": ("import cm_colors in a fresh interpreter", "long history of report-writing calls in a fresh interpreter with RLIMIT_NOFILE = 96", "library first imported under a temporary stdout that was closed afterwards", "report names taken by directories, temporary directory watched")[min(3, tid - len(jobs))]}
             rep.violation("/".join(mine), dict(src, behaviour=traces[tid],
                           reproduce="run the operations of `behaviour` in an empty working directory; dout = bytes on stdout+stderr, newFiles/modFiles = directory diff"))
     return rep.finish()
